@@ -249,9 +249,20 @@ XalanEXSLTFunctionPadding::execute(
     const XalanDOMString&               thePaddingString = theSize == 2 ? args[1]->str(executionContext) : m_space;
     const XalanDOMString::size_type     thePaddingStringLength = thePaddingString.length();
 
-    if (theLength == 0.0 || thePaddingStringLength == 0)
+    // A length that is not a positive number (including NaN) results in
+    // an empty string.  Anything else must be representable as a length.
+    if (!(theLength > 0.0) || thePaddingStringLength == 0)
     {
         return executionContext.getXObjectFactory().createStringReference(s_emptyString);
+    }
+    else if (theLength >= double(XalanDOMString::npos))
+    {
+        generalError(
+            executionContext,
+            context,
+            locator);
+
+        return XObjectPtr();
     }
     else
     {
